@@ -1,6 +1,9 @@
 """Dispatcher: ./check C20 --tier quick"""
 import importlib
+import logging
 import sys
+
+logging.disable(logging.CRITICAL)   # product code logs expected failures loudly; the checks judge state, not logs
 
 MODULES = {
     'C01': 'c01_blob', 'C02': 'c02_stream', 'C03': 'c03_txfund', 'C04': 'c04_sighash', 'C05': 'c05_txwire',
